@@ -30,6 +30,7 @@ STRATA = [
     ("structured", 1500, 30000),
     ("negative", 600, 12000),
     ("spread", 600, 12000),
+    ("tiny-scale", 800, 12000),
     ("line", 300, 3000),
     ("decimal", 600, 12000),
     ("medium", 250, 4000),
@@ -164,6 +165,15 @@ def gen(stratum, rng, tier):
     elif stratum == "spread":
         r, c = _dims(rng, rng.choice(["square", "wide", "tall"]), hi)
         M = _mat(rng, r, c, _pool(rng, "spread"))
+    elif stratum == "tiny-scale":
+        # exact dyadic costs whose decisive differences are far below 1e-9: k * 2**-40, or an ordinary magnitude
+        # plus k * 2**-40 (all exactly representable; the optimum does not care about the scale of the matrix)
+        r, c = _dims(rng, rng.choice(["square", "wide", "tall"]), hi)
+        base = rng.choice([0.0, 0.0, 3.0, -7.0])
+        # keep every entry and every sum of <= 8 entries exactly representable (53-bit mantissa)
+        unit = 2.0 ** -(rng.choice([34, 40, 46, 60]) if base == 0.0 else rng.choice([34, 40]))
+        sign = rng.choice([1, 1, -1])
+        M = [[base + sign * unit * rng.randint(0, 40) for _ in range(c)] for _ in range(r)]
     elif stratum == "line":
         n = rng.randint(1, 9)
         r, c = rng.choice([(1, n), (n, 1), (1, 1), (2, n), (n, 2)])
